@@ -421,6 +421,19 @@ nfa, with no epsilon transition
 
         """
         from pyformlang.regular_expression import Regex
+        if len(self._start_state) > 1:
+            # The elimination needs a single start state
+            new_start = State("Start")
+            counter = 0
+            while new_start in self._states:
+                new_start = State("Start" + str(counter))
+                counter += 1
+            enfa = self.copy()
+            for state in self._start_state:
+                enfa.remove_start_state(state)
+                enfa.add_transition(new_start, Epsilon(), state)
+            enfa.add_start_state(new_start)
+            return enfa.to_regex()
         enfas = [self.copy() for _ in self._final_states]
         final_states = list(self._final_states)
         for i in range(len(self._final_states)):
